@@ -3,6 +3,7 @@ package main
 import (
 	"encoding/json"
 	"fmt"
+	"github.com/sirupsen/logrus"
 	"strconv"
 	"strings"
 	"sync"
@@ -64,6 +65,10 @@ func init() {
 			}
 			now := time.Unix(1700000000, 42).UTC()
 			rscp.Now = func() time.Time { return now }
+			// the shared logger is at "warning" during the round (output discarded): authentications lower it for a moment
+			// and put it back — afterwards it is what it was
+			lvlBefore := rscp.Log.GetLevel()
+			rscp.Log.SetLevel(logrus.WarnLevel)
 			var wg sync.WaitGroup
 			start := make(chan struct{})
 			for i := 0; i < k; i++ {
@@ -121,6 +126,10 @@ func init() {
 			close(start)
 			wg.Wait()
 			rscp.Now = time.Now
+			if l := rscp.Log.GetLevel(); l != logrus.WarnLevel {
+				cw.add("skip", "skip", "N conc logger-level", fmt.Sprintf("FAIL C17 after concurrent sessions the shared logger level is %v, it was set to warning", l))
+			}
+			rscp.Log.SetLevel(lvlBefore)
 			for i := 0; i < k; i++ {
 				for _, o := range results[i] {
 					cw.add(o.op, o.impl, o.label, o.prop)
@@ -205,6 +214,69 @@ func init() {
 			}
 			cw.add("skip", "skip", "N conc json-readers", prop)
 		}
+		// goroutines that decode frames the decoder refuses (a fixed-size item with a wrong length, an undefined type, a bad
+		// checksum) while other goroutines run sessions that authenticate again and again (connect, call, disconnect)
+		{
+			stop := make(chan struct{})
+			var wgd sync.WaitGroup
+			badFrames := [][]byte{padBlocks(frameBytes(itemBytes(0x00800001, 1, []byte{1, 0}), true, 1, 2)), padBlocks(frameBytes(itemBytes(0x00800001, 0x11, nil), true, 1, 2)),
+				padBlocks(frameBytes(itemBytes(0x00800001, 6, []byte{1}), false, 1, 2)), padBlocks(frameBytes(itemBytes(0x7f800001, 3, []byte{1}), true, 1, 2))}
+			wantBad := make([]string, len(badFrames))
+			for k, p := range badFrames {
+				wantBad[k] = readOnce(identityMode{}, p)
+			}
+			derr := make([]string, 4)
+			for w := 0; w < 4; w++ {
+				wgd.Add(1)
+				go func(w int) {
+					defer wgd.Done()
+					for {
+						select {
+						case <-stop:
+							return
+						default:
+						}
+						for k, p := range badFrames {
+							if got := readChunksSeq(identityMode{}, [][]byte{p}, false)[0]; got != wantBad[k] {
+								derr[w] = got
+							}
+						}
+					}
+				}(w)
+			}
+			serr := make([]string, 4)
+			var wgs sync.WaitGroup
+			for w := 0; w < 4; w++ {
+				wgs.Add(1)
+				go func(w int) {
+					defer wgs.Done()
+					s, err := newSession(fmt.Sprintf("mixuser%d", w), "pw", fmt.Sprintf("mixkey%d", w), 300*time.Millisecond, 1)
+					if err != nil {
+						return
+					}
+					grant := frameReply([]rscp.Message{{Tag: rscp.RSCP_AUTHENTICATION, DataType: rscp.UChar8, Value: uint8(10)}})
+					for k := 0; k < 12; k++ {
+						c := &callSpec{kind: "S", dialOk: true, writeOk: true, reqs: []rscp.Message{{Tag: rscp.INFO_REQ_UTC_TIME, DataType: rscp.None}}, auth: grant}
+						c.user = frameReply([]rscp.Message{{Tag: rscp.INFO_UTC_TIME, DataType: rscp.UChar8, Value: uint8(k)}})
+						if r := s.call(c); !strings.HasPrefix(r, "ok ") {
+							serr[w] = r
+						}
+						s.call(&callSpec{kind: "D"})
+					}
+					s.close()
+				}(w)
+			}
+			wgs.Wait()
+			close(stop)
+			wgd.Wait()
+			prop := "pass"
+			for _, e := range append(derr, serr...) {
+				if e != "" {
+					prop = "FAIL C17 decoding refused frames beside authenticating sessions: " + trunc(e, 120)
+				}
+			}
+			cw.add("skip", "skip", "N conc refused-frames-beside-authentications", prop)
+		}
 		// clients created concurrently, each with its own key
 		{
 			var wg5 sync.WaitGroup
@@ -250,8 +322,11 @@ func init() {
 			var calls [][]*callSpec
 			for i := 0; i < k; i++ {
 				tcpConnTimeout = []time.Duration{2 * time.Second, 5 * time.Second, 4 * time.Second, 3 * time.Second, 0, 2500 * time.Millisecond}[i]
+				if i%2 == 1 {
+					tcpHost = "localhost" // every other client names its device instead of giving the address
+				}
 				ts, err := newTCPSession(fmt.Sprintf("tcpuser%d", i), "pw", fmt.Sprintf("tcpkey%d", i))
-				tcpConnTimeout = 2 * time.Second
+				tcpConnTimeout, tcpHost = 2*time.Second, ""
 				if err != nil {
 					sess = append(sess, nil)
 					calls = append(calls, nil)
